@@ -28,3 +28,14 @@ func (s *BlockchainRpcTxWatcher) VerifDeliverHeight(swapId string, height uint32
 		}
 	}
 }
+
+// VerifCsvWatched reports whether swapId is in the CSV watch list. After
+// AddWaitForCsvTx has returned, false means that the output was already past
+// the CSV and the callback was handed to its own goroutine (the entry is added
+// later only if that callback fails), so a harness knows it has to wait for it.
+func (s *BlockchainRpcTxWatcher) VerifCsvWatched(swapId string) bool {
+	s.Lock()
+	defer s.Unlock()
+	_, ok := s.csvtxWatchList[swapId]
+	return ok
+}
